@@ -1983,3 +1983,206 @@ mod tests {
         Ok(())
     }
 }
+
+/// Verification hooks (add-only, compiled only with the `verif-hooks` feature)
+#[cfg(feature = "verif-hooks")]
+pub mod verif {
+    use super::*;
+
+    /// Explicit form of a compiled automaton
+    pub struct DfaDump {
+        pub size: usize,
+        pub start: usize,
+        /// (from, symbol, to)
+        pub transitions: Vec<(usize, u8, usize)>,
+        /// per state: (is_accepting, is_terminal, tags in set order: `M<index>` or `I<debug of item>`)
+        pub infos: Vec<(bool, bool, Vec<String>)>,
+    }
+
+    fn dump<T: fmt::Debug>(dfa: &DFA<MatcherTag<T>>) -> DfaDump {
+        let size = dfa.size();
+        let mut transitions = Vec::new();
+        let mut infos = Vec::new();
+        for state in 0..size {
+            for symbol in 0..=255u8 {
+                if let Some(to) = dfa.transition(DFAState::verif_from_index(state), symbol) {
+                    transitions.push((state, symbol, to.verif_index()));
+                }
+            }
+            let info = dfa.info(DFAState::verif_from_index(state));
+            let tags = info
+                .tags
+                .iter()
+                .map(|tag| match tag {
+                    MatcherTag::Item(item) => format!("I{:?}", item),
+                    MatcherTag::Matcher(index) => format!("M{}", index),
+                })
+                .collect();
+            infos.push((info.is_accepting, info.is_terminal, tags));
+        }
+        DfaDump {
+            size,
+            start: dfa.start().verif_index(),
+            transitions,
+            infos,
+        }
+    }
+
+    /// Dump production automata: "event", "command" or "utf8"
+    pub fn dump_dfa(which: &str) -> Option<DfaDump> {
+        match which {
+            "event" => Some(dump(&TTY_EVENT_AUTOMATA.automata)),
+            "command" => Some(dump(&TTY_COMMAND_AUTOMATA.automata)),
+            "utf8" => {
+                let dfa: &DFA<()> = &UTF8DFA;
+                let size = dfa.size();
+                let mut transitions = Vec::new();
+                let mut infos = Vec::new();
+                for state in 0..size {
+                    for symbol in 0..=255u8 {
+                        if let Some(to) = dfa.transition(DFAState::verif_from_index(state), symbol) {
+                            transitions.push((state, symbol, to.verif_index()));
+                        }
+                    }
+                    let info = dfa.info(DFAState::verif_from_index(state));
+                    infos.push((info.is_accepting, info.is_terminal, Vec::new()));
+                }
+                Some(DfaDump {
+                    size,
+                    start: dfa.start().verif_index(),
+                    transitions,
+                    infos,
+                })
+            }
+            _ => None,
+        }
+    }
+
+    /// Debug names of matchers registered in production automata, in index order
+    pub fn matcher_names(which: &str) -> Vec<String> {
+        match which {
+            "event" => TTY_EVENT_AUTOMATA
+                .matchers
+                .iter()
+                .map(|m| format!("{:?}", m))
+                .collect(),
+            "command" => TTY_COMMAND_AUTOMATA
+                .matchers
+                .iter()
+                .map(|m| format!("{:?}", m))
+                .collect(),
+            _ => Vec::new(),
+        }
+    }
+
+    /// Call payload decoder of the matcher with provided index directly,
+    /// outer `None` means that there is no such matcher.
+    pub fn decode_with(which: &str, index: usize, data: &[u8]) -> Option<Option<String>> {
+        match which {
+            "event" => TTY_EVENT_AUTOMATA
+                .matchers
+                .get(index)
+                .map(|m| m.decode(data).map(|item| format!("{:?}", item))),
+            "command" => TTY_COMMAND_AUTOMATA
+                .matchers
+                .get(index)
+                .map(|m| m.decode(data).map(|item| format!("{:?}", item))),
+            _ => None,
+        }
+    }
+
+    #[derive(Debug)]
+    struct PatternMatcher {
+        index: usize,
+        nfa: NFA<()>,
+        /// register as item tag (decoder is not called) instead of matcher index
+        as_item: bool,
+    }
+
+    impl Matcher for PatternMatcher {
+        type Item = (usize, Vec<u8>);
+
+        fn matcher(&self) -> Either<NFA<Void>, NFA<Self::Item>> {
+            if self.as_item {
+                Either::Right(
+                    self.nfa
+                        .clone()
+                        .tags_map(|_| (self.index, Vec::new()))
+                        .tag_stop_state((self.index, Vec::new())),
+                )
+            } else {
+                Either::Left(self.nfa.clone().tags_map(|_| unreachable!()))
+            }
+        }
+
+        fn decode(&self, data: &[u8]) -> Option<Self::Item> {
+            Some((self.index, data.to_vec()))
+        }
+    }
+
+    /// Token produced by [Tokenizer]: pattern index with matched bytes (bytes are empty
+    /// for patterns registered as items), or bytes that were not recognized
+    pub type Token = Result<(usize, Vec<u8>), Vec<u8>>;
+
+    /// Incremental tokenizer (the one used by tty decoders) over caller supplied patterns
+    pub struct Tokenizer {
+        decoder: MatcherDecoder<(usize, Vec<u8>)>,
+    }
+
+    impl Tokenizer {
+        /// Patterns must not contain tags, second component selects item registration
+        pub fn new(patterns: impl IntoIterator<Item = (NFA<()>, bool)>) -> Self {
+            let automata = MatcherAutomata::new(patterns.into_iter().enumerate().map(
+                |(index, (nfa, as_item))| {
+                    Box::new(PatternMatcher {
+                        index,
+                        nfa,
+                        as_item,
+                    }) as Box<dyn Matcher<Item = (usize, Vec<u8>)>>
+                },
+            ));
+            Self {
+                decoder: MatcherDecoder::new(automata),
+            }
+        }
+
+        pub fn dump(&self) -> DfaDump {
+            dump(&self.decoder.automata.automata)
+        }
+
+        /// Decode single token
+        pub fn decode(&mut self, input: &mut &[u8]) -> Option<Token> {
+            self.decoder
+                .decode(input)
+                .ok()
+                .flatten()
+                .map(|item| item.map_err(|buf| buf.to_vec()))
+        }
+
+        /// Decode all tokens available in the input
+        pub fn decode_all(&mut self, mut input: &[u8]) -> Vec<Token> {
+            let mut output = Vec::new();
+            while let Some(token) = self.decode(&mut input) {
+                output.push(token);
+            }
+            output
+        }
+
+        /// Per byte trace: (state after byte or None if dead, is_accepting, is_terminal), without
+        /// tokenizer logic, starting from the start state
+        pub fn trace(&self, input: &[u8]) -> Vec<Option<(usize, bool, bool)>> {
+            let dfa = &self.decoder.automata.automata;
+            let mut state = Some(dfa.start());
+            input
+                .iter()
+                .map(|byte| {
+                    state = state.and_then(|state| dfa.transition(state, *byte));
+                    state.map(|state| {
+                        let info = dfa.info(state);
+                        (state.verif_index(), info.is_accepting, info.is_terminal)
+                    })
+                })
+                .collect()
+        }
+    }
+}
